@@ -72,6 +72,7 @@ func genPlanC14(t *simrt.Tape, tier string) interface{} {
 		p.Conf.CloseIn = []string{"auth", "reg"}[t.Draw(2)]
 	}
 	p.LingerS = 90
+	p.Chatter = t.Draw(3) == 0
 	return p
 }
 
@@ -191,6 +192,24 @@ func runC14(w *World, pi interface{}) {
 			}
 		}
 	}
+	// a refused client that keeps talking is disconnected all the same: the failed session is followed
+	// by the close within the bound, whatever the client goes on sending
+	if p.Chatter {
+		for k := range peers {
+			var failedAt, closedAt int64 = -1, -1
+			for _, e := range h.Of(k, "s-frame", "s-close") {
+				if e.Kind == "s-frame" && fstr(e.Frame, "state") == "failed" && failedAt < 0 {
+					failedAt = e.AtMs
+				}
+				if e.Kind == "s-close" && closedAt < 0 {
+					closedAt = e.AtMs
+				}
+			}
+			if failedAt >= 0 && (closedAt < 0 || closedAt-failedAt > 60000) {
+				w.Violate("C14.refused-client-kept-on-the-line", sig("chatter"), "connection %d was refused at %d ms and went on sending session envelopes; the server closed the connection at %d ms (-1: never), more than 60 s later\n%s", k, failedAt, closedAt, h.Dump(40))
+			}
+		}
+	}
 	// a client that leaves is not held by the connection: closing its own end returns
 	for k, peer := range peers {
 		if peer != nil && peer.CloseBlocked {
@@ -266,6 +285,7 @@ func init() {
 		MaxSim: 3 * time.Hour,
 		Rule: "C03's plan space against a full ServerBuilder server, 1-4 concurrent scripted clients per run mixing cooperative ones, clients that vanish (FIN/RST) at a chosen step and random words over the handshake alphabet; " +
 			"authentication outcomes biased to errors/rejections/round trips, registration errors, authentications of 6-14 round trips before a rejection, Server.Close called from inside a callback of a pending handshake; each client keeps reading for 90 simulated seconds; oracle: refused client sees the connection closed, no callbacks, server end closed, session goroutine census; " +
+			"in-process queue of 4, 1 or 0 envelopes and deaf in-process clients; a client's Close of its own connection returns within 30 s; listener queues (ConnBuffer) of 0, 1 or 8 connections; " +
 			"non-trivial = at least one scripted client connected; distinct = distinct (plan JSON, event-log hash)",
 	})
 }
